@@ -427,6 +427,69 @@ func firstDiff(a, b []byte) int {
 
 func TestC01Big(t *testing.T) { rapid.Check(t, c01BigCase) }
 
+// c01BigOther: values beyond 16 MiB that are NOT hashes (string, list of large elements, LZF string) are one record each.
+func c01BigOther(t *rapid.T) {
+	kind := rapid.SampledFrom([]string{"string", "list", "lzf-string", "zset"}).Draw(t, "kind")
+	n := chunkLimit + rapid.IntRange(-3, 1<<20).Draw(t, "extra")
+	var typ byte
+	var val []byte
+	switch kind {
+	case "string":
+		typ = gen.TString
+		val = append([]byte{0x80, byte(n >> 24), byte(n >> 16), byte(n >> 8), byte(n)}, patBytes(uint32(n), n)...)
+	case "lzf-string":
+		typ = gen.TString
+		raw := bytes.Repeat([]byte("abcdefgh"), n/8)
+		c := ref.LZFCompress(raw)
+		val = append([]byte{0xc3}, gen.AppendLen(nil, uint64(len(c)), 0)...)
+		val = gen.AppendLen(val, uint64(len(raw)), 0)
+		val = append(val, c...)
+	case "list":
+		typ = gen.TList
+		k := rapid.IntRange(2, 6).Draw(t, "elems")
+		val = gen.AppendLen(nil, uint64(k), 0)
+		for i := 0; i < k; i++ {
+			e := patBytes(uint32(i), n/k+1)
+			val = append(val, 0x80, byte(len(e)>>24), byte(len(e)>>16), byte(len(e)>>8), byte(len(e)))
+			val = append(val, e...)
+		}
+	default:
+		typ = gen.TZSet2
+		k := 20
+		val = gen.AppendLen(nil, uint64(k), 0)
+		for i := 0; i < k; i++ {
+			e := patBytes(uint32(i), n/k+1)
+			val = append(val, 0x80, byte(len(e)>>24), byte(len(e)>>16), byte(len(e)>>8), byte(len(e)))
+			val = append(val, e...)
+			val = binary.LittleEndian.AppendUint64(val, uint64(i)<<52)
+		}
+	}
+	b := []byte("REDIS0009")
+	b = append(b, gen.OpSelectDB, 3, typ)
+	b = gen.AppendRawString(b, []byte("big:"+kind))
+	b = append(b, val...)
+	b = append(b, gen.TString)
+	b = gen.AppendRawString(b, []byte("after"))
+	av := gen.AppendRawString(nil, []byte("x"))
+	b = append(b, av...)
+	b = append(b, gen.OpEOF)
+	f := &gen.File{Version: 9, Bytes: appendCRC(b), Labels: map[string]bool{"big:" + kind: true}, Records: []gen.Record{
+		{DB: 3, Key: []byte("big:" + kind), Type: typ, ValBytes: val, Label: "big/" + kind},
+		{DB: 3, Key: []byte("after"), Type: gen.TString, ValBytes: av, Label: "string"}}}
+	entries, err, res := loadAll(&gen.ChunkReader{Data: f.Bytes, Sizes: []int{1 << 20, 4096, 65536}})
+	if err != nil || !res.Completed {
+		violation(t, "C01", "big-value:load-error", "file with a %d byte %s rejected: %v %v", len(val), kind, err, res)
+		return
+	}
+	if c01Compare(t, f, entries) {
+		return
+	}
+	stats.C.Case(true, stats.HashS(fmt.Sprint(kind, n)), "big-non-hash:"+kind)
+	stats.C.Sample(fmt.Sprintf("%s value of %d serialized bytes (beyond the 16 MiB chunk limit), one record, next key intact", kind, len(val)))
+}
+
+func TestC01BigOther(t *testing.T) { rapid.Check(t, c01BigOther) }
+
 func TestC01Regress(t *testing.T) {
 	// fixed: module-aux FLOAT is 4 binary bytes; the key after it must be delivered intact
 	b := []byte("REDIS0009")
